@@ -54,6 +54,11 @@ mod proofs {
         assert!(d.len() == N && d[0] == v[0] && d[1] as i128 == s1 && d[2] as i128 == s2, "[delta-i64] Delta(I64) decodes to the running sum");
     }
 
+    // compaction reaches this arm for every hex-packed string column; it must produce the strings, not panic
+    #[kani::proof]
+    fn unhexpack_arm_is_implemented() {
+        unhexpack_arm();
+    }
     #[kani::proof]
     fn vx_canary() {
         let x: u8 = kani::any();
